@@ -26,7 +26,7 @@ int main(int argc, char **argv) {
   size_t mi = 0;
   for (auto &m : prog.at("mods").a) { prog::CEmitter e; write_all(out + "/m" + std::to_string(mi++) + ".c", e.module(m, sigs)); }
   // driver + expectations
-  std::string drv = "#include <stdio.h>\nstatic long long nlog; static unsigned long long hlog;\n"
+  std::string drv = std::string("#include <stdio.h>\n") + prog::C_BLK_DECLS + "static long long nlog; static unsigned long long hlog;\n"
     "static void lg(long long t, long long v) { nlog++; hlog = (hlog ^ (unsigned long long) t) * 1099511628211ULL; hlog = (hlog ^ (unsigned long long) v) * 1099511628211ULL; }\n"
     "long long ext(long long tag, long long v) { lg(tag, v); return (long long)((unsigned long long) v * 3 + (unsigned long long) tag); }\n"
     "long long extm(long long t, float x, long double y, int n, double z, unsigned char b, long double w, long long s7, float x2, short h, long long p, unsigned q, long long last) { lg(200, t);\n"
@@ -51,7 +51,9 @@ int main(int argc, char **argv) {
       declared.insert(fi.name); std::string d = std::string("extern ") + prog::c_ty(fi.rt) + " " + fi.name + "("; int k = 0; for (char c : fi.ps) { if (k++) d += ", "; d += prog::c_ty(c); } if (fi.ps.empty()) d += "void"; drv += d + ");\n";
     }
     std::string c = "  nlog = 0; hlog = 0; r = (long long) " + fi.name + "("; int ai = 0, di = 0, k = 0;
-    for (char ch : fi.ps) { if (k++) c += ", "; if (prog::int_kind(ch)) { long long v = (long long) args[(size_t) ai++]; c += v == INT64_MIN ? std::string("(-9223372036854775807LL-1)") : std::to_string(v) + "LL"; } else { c += prog::S("%d.0%s", 2 + di, ch == 'f' ? "f" : ch == 'l' ? "L" : ""); di++; } }
+    for (char ch : fi.ps) { if (k++) c += ", ";
+      if (const prog::BlkInfo *bi = prog::blk_info(ch)) { int64_t v = args[(size_t) ai++]; c += std::string("(") + prog::c_ty(ch) + "){"; for (int j = 0; bi->fields[j]; j++) { uint64_t raw = prog::blk_field(bi->fields[j], v, j); c += std::string(j ? ", " : "") + (bi->fields[j] == 'q' ? "(long long) " + std::to_string((unsigned long long) raw) + "ULL" : std::to_string((unsigned long long) raw) + ".0"); } c += "}"; }
+      else if (prog::int_kind(ch)) { long long v = (long long) args[(size_t) ai++]; c += v == INT64_MIN ? std::string("(-9223372036854775807LL-1)") : std::to_string(v) + "LL"; } else { c += prog::S("%d.0%s", 2 + di, ch == 'f' ? "f" : ch == 'l' ? "L" : ""); di++; } }
     c += "); printf(\"%lld %lld %llu\\n\", r, nlog, hlog);\n"; calls += c;
     expect += std::to_string((long long) want) + " " + std::to_string(model.log.size()) + " " + std::to_string((unsigned long long) h) + "\n"; ncalls++;
   }
